@@ -76,9 +76,9 @@ class Part:
         if finding:
             self.c['finding:' + finding] += 1
         # keep the first few of every (kind, finding) so that small cases survive
-        key = (kind, finding)
-        have = sum(1 for v in self.violations if (v['kind'], v.get('finding')) == key)
-        if have < PER_KIND and len(self.violations) < MAX_STORED_VIOLATIONS:
+        key = 'stored:%s|%s' % (kind, finding)
+        if self.c[key] < PER_KIND and len(self.violations) < MAX_STORED_VIOLATIONS:
+            self.c[key] += 1
             self.violations.append({'kind': kind, 'case': case, 'detail': detail, 'finding': finding})
 
     def pack(self):
@@ -192,7 +192,7 @@ def finalize(res):
     if not cov['samples']:
         # never leave the list empty: fall back to the space descriptions / stored violations
         cov['samples'] = [{'space': x} for x in cov.get('spaces', [])[:3]] or [{'note': 'no sample recorded'}]
-    cov['counters'] = {k: v for k, v in sorted(agg.c.items())}
+    cov['counters'] = {k: v for k, v in sorted(agg.c.items()) if not k.startswith('stored:')}
     cov['known_findings_hit'] = {i: agg.c.get('finding:' + i, 0) for i in sorted(open_ids)}
     ev = {
         'property_id': res.prop, 'tier': res.tier, 'seed': res.seed, 'level': res.level,
